@@ -14,6 +14,8 @@ usage: c13_sites.py <repo> <outdir>
   it changes the generated list.
 * concurrency_sites: every join_all / join! / try_join* / buffered / buffer_unordered / FuturesUnordered / FuturesOrdered /
   select* / for_each_concurrent / spawn / JoinSet in FILES, with the head of its argument.
+* shared_state_sites: every thread_local! static, `static mut` and static with interior mutability in FILES (state that survives
+  from one evaluation / walk / report to the next).
 * lsb_aliases: the match arms of `impl From<MinidumpLinuxLsbRelease<'_>> for LinuxStandardBase`, which must be a `for (key, val)
   in linux_standard_base.iter()` over the lines in file order whose arms assign `lsb.<field>`.
 coq/C13/Sites.v lists the sites the theorems cover and why each is harmless; C13/Properties proves the generated lists equal
@@ -26,7 +28,9 @@ import sys
 FILES = ["minidump-processor/src/processor.rs", "minidump-processor/src/process_state.rs", "minidump-processor/src/evil.rs",
          "minidump-processor/src/arg_recovery.rs", "minidump-processor/src/op_analysis.rs", "minidump-processor/src/lib.rs",
          "minidump-unwind/src/lib.rs", "minidump-unwind/src/symbols/mod.rs", "breakpad-symbols/src/lib.rs",
-         "breakpad-symbols/src/sym_file/walker.rs"]
+         "breakpad-symbols/src/sym_file/walker.rs", "breakpad-symbols/src/sym_file/parser.rs", "breakpad-symbols/src/sym_file/types.rs",
+         "breakpad-symbols/src/sym_file/mod.rs"]
+MUTABLE_TY = r"RefCell|\bCell<|Mutex|RwLock|Atomic|OnceLock|OnceCell|Lazy|UnsafeCell"
 ITER_METHODS = ["iter", "iter_mut", "into_iter", "keys", "values", "values_mut", "drain", "into_keys", "into_values", "retain",
                 "par_iter", "into_par_iter"]
 COMBINATORS = ["join_all", "try_join_all", "join!", "try_join!", "join", "try_join", "buffer_unordered", "buffered", "FuturesUnordered",
@@ -408,7 +412,20 @@ def scan_file(path, label, all_fields, all_hash_fns):
             k = arg.find(".map(")
             head = arg[:k] if k >= 0 else arg[:160]
         conc.append((label, sc.fn_at(m.start()), norm(sc.src[r0:m.end()]).rstrip("(") + "(" + head))
-    return [t for _, t in sites], conc
+    # ---- state that outlives one evaluation / one walk: thread_local! statics, `static mut`, statics with interior mutability
+    shared = []
+    for m in re.finditer(r"\bthread_local!\s*\{", s):
+        cl = match_close(s, m.end() - 1)
+        for st in re.finditer(r"\bstatic\s+(?:mut\s+)?(\w+)\s*:\s*([^=;]+?)\s*=", s[m.end():cl]):
+            shared.append((label, "thread_local " + st.group(1), norm(st.group(2))))
+    for m in re.finditer(r"(?m)^\s*(?:pub(?:\([^)]*\))?\s+)?static\s+(mut\s+)?(\w+)\s*:\s*([^=;]+?)\s*=", s):
+        if any(a <= m.start() <= b for a, b in [(t.end(), match_close(s, t.end() - 1)) for t in re.finditer(r"\bthread_local!\s*\{", s)]):
+            continue
+        if m.group(1) or re.search(MUTABLE_TY, m.group(3)):
+            shared.append((label, "static " + m.group(2), norm(m.group(3))))
+    for m in re.finditer(r"\blazy_static!\s*\{", s):
+        shared.append((label, "lazy_static", norm(sc.src[m.end():match_close(s, m.end() - 1)])[:120]))
+    return [t for _, t in sites], conc, shared
 
 
 def rhs_is_hash(rhs, hash_fns, fields):
@@ -482,12 +499,13 @@ def main():
         sc = Scan(p, label_of(f))
         fields.setdefault(crate, set()).update(sc.fields)
         hash_fns.setdefault(crate, {"stats"}).update(sc.hash_fns)   # SymbolProvider::stats() -> HashMap<String, SymbolStats>
-    sites, conc = [], []
+    sites, conc, shared = [], [], []
     for f in FILES:
         crate = f.split("/")[0]
-        a, b = scan_file(os.path.join(repo, f), label_of(f), fields[crate], hash_fns[crate])
+        a, b, c = scan_file(os.path.join(repo, f), label_of(f), fields[crate], hash_fns[crate])
         sites += a
         conc += b
+        shared += c
     if not sites:
         die("no hash iteration site found (the extraction is broken: print_json sorts proc_limits out of a HashMap)")
     if not conc:
@@ -503,6 +521,11 @@ def main():
     o.append("(* every future combinator: (file, enclosing fn, combinator and the head of its argument) *)")
     o.append("Definition concurrency_sites : list (string * string * string) := [")
     o.append(";\n".join("  (%s, %s, %s)" % tuple(coq_str(x) for x in t) for t in conc))
+    o.append("].")
+    o.append("")
+    o.append("(* state that outlives one evaluation / one walk: thread_local statics, static mut, statics with interior mutability *)")
+    o.append("Definition shared_state_sites : list (string * string * string) := [")
+    o.append(";\n".join("  (%s, %s, %s)" % tuple(coq_str(x) for x in t) for t in shared))
     o.append("].")
     o.append("")
     o.append("(* LinuxStandardBase::from: match arms in source order, (key spellings, field assigned) *)")
